@@ -10,6 +10,7 @@ import TonVerif.Proofs.Hashmap
 import TonVerif.Proofs.SrcArith2
 import TonVerif.Generated.DictKey
 import TonVerif.Proofs.SrcHashmap
+import TonVerif.Proofs.SrcHashmapSer
 
 namespace TonVerif.Properties.C09
 open TonVerif TonVerif.Model TonVerif.Model.Hashmap TonVerif.Spec.Hashmap TonVerif.Proofs.Hashmap
@@ -244,5 +245,54 @@ example : (parse_hashmap 4 (Py.beginParse (.mk (-1) [false, false] [.mk (-1) [fa
     = some [([false], ⟨-1, [true], []⟩), ([true], ⟨-1, [false], []⟩)] := by rfl
 
 end SrcParser
+
+/-! ### the round trip through the serialiser AND the parser regenerated from utils.py / parse.py -/
+section SrcFull
+open TonVerif.Generated.HashmapSrc TonVerif.Proofs.SrcHashmap TonVerif.Proofs.SrcHashmapSer
+
+/-- the serialiser the round trip rests on is the regenerated one: `serialize_dict(map, n, serializer).end_cell()` from utils.py is
+what the hand model's `serialize()` returns for every non-empty map reached by accepted `set_int_key` calls -/
+theorem c09_src_serialize_is_model {V : Type} (n : Nat) (hn : 0 < n) (ser : V → Option Val) (ins : List (Int × V)) (d : Dict V)
+    (hset : setAll n ins [] = some d) (hne : d ≠ []) (fuel : Nat) (hf : 2 * n + 2 ≤ fuel) :
+    (serialize_dict (serCb ser) fuel d n).map (fun b => some b.endCell) = serialize n ser d :=
+  serialize_dict_eq n hn ser d (c09_dict_ok n ins d hset) hne fuel hf
+
+/-- FULL ROUND TRIP FROM THE SOURCE.  For every key width n ≥ 1, every value serialiser and EVERY sequence `ins` of accepted
+`set_int_key(k, v)` calls on a fresh HashMap (any order, keys may repeat): if `serialize_dict(map, n, serializer)` AS REGENERATED FROM
+utils.py returns a builder `b`, then `parse_hashmap(b.end_cell().begin_parse(), n)` AS REGENERATED FROM parse.py returns a list `kv` of
+(key string, ordinary slice behind the leaf label) whose int-keyed form `r` has strictly ascending keys and contains `(k ↦ val)` iff the
+LAST value written for `k` serialises to `val` — the regenerated serialiser followed by the regenerated parser is the identity on
+every finite map of every key width (fuels: any ≥ 2n + 2 on both sides; Python has none). -/
+theorem c09_src_roundtrip_full {V : Type} (n : Nat) (hn : 0 < n) (ser : V → Option Val) (ins : List (Int × V)) (d : Dict V) (b : Py.Bld)
+    (hset : setAll n ins [] = some d) (fuel : Nat) (hf : 2 * n + 2 ≤ fuel)
+    (hser : serialize_dict (serCb ser) fuel d n = some b) (fuel' : Nat) (hf' : 2 * n + 2 ≤ fuel') :
+    ∃ (kv : List (Bits × Val)) (r : Dict Val),
+      (parse_hashmap fuel' (Py.beginParse b.endCell) (n : Int)).map (·.1) = some (kv.map fun p => (p.1, valSlice p.2)) ∧
+      intKeys kv = r ∧
+      r.Pairwise (fun a b => a.1 < b.1) ∧
+      ∀ k val, (k, val) ∈ r ↔ ∃ v, lastWrite ins k = some v ∧ ser v = some val := by
+  have hne : d ≠ [] := by rintro rfl; rw [serialize_dict_nil] at hser; simp at hser
+  have hm := c09_src_serialize_is_model n hn ser ins d hset hne fuel hf
+  rw [hser] at hm
+  obtain ⟨kv, r, h1, h2, _, h4, h5⟩ := c09_src_roundtrip n hn ser ins d b.endCell hset hm.symm fuel' hf'
+  exact ⟨kv, r, h1, h2, h4, h5⟩
+
+/-- non-vacuity: the map written as 2 ↦ T, 1 ↦ F, 2 ↦ F (see `exIns` above) is accepted, and the regenerated serialiser returns a builder for it -/
+example : ∃ b, serialize_dict (serCb exSer) 6 [(2, false), (1, false)] 2 = some b := by
+  have hd : DictOK 2 [(2, false), (1, false)] := ⟨by decide, by decide⟩
+  have := serialize_dict_eq 2 (by decide) exSer [(2, false), (1, false)] hd (by simp) 6 (by decide)
+  cases h : serialize_dict (serCb exSer) 6 [(2, false), (1, false)] 2 with
+  | some b => exact ⟨b, rfl⟩
+  | none =>
+    rw [h] at this
+    have : serialize 2 exSer [(2, false), (1, false)] = none := this.symm
+    have hex : ∃ c, serialize 2 exSer [(2, false), (1, false)] = some (some c) := by
+      simp [serialize, buildTree, buildEdge, keyBits, binDigits, bitLength, natToBits, findCommonPrefix, lexMin, lexMax, lexLe,
+        commonPrefix, forkMap, writeEdge, labelBits, detect_label_type, label_short_length, label_long_length, label_same_length,
+        is_same, exSer]
+    obtain ⟨c, hc⟩ := hex
+    rw [hc] at this; simp at this
+
+end SrcFull
 
 end TonVerif.Properties.C09
